@@ -730,6 +730,38 @@ func runC08(w *W) {
 		}
 	}
 
+	// D: deep but narrow trees — the printed tree is several hundred levels deep (indentation and depth bookkeeping
+	// beyond anything a golden file reaches): left-deep and right-deep chains of every operator, prefix towers
+	for _, n := range []int{70, 130, 200, 330, 600} {
+		if !w.Thorough() && n == 200 {
+			continue
+		}
+		for oi, o := range all {
+			if !w.Thorough() && n > 130 && oi%3 != 0 {
+				continue
+			}
+			left := id("x0")
+			right := id(fmt.Sprintf("x%d", n))
+			for i := 1; i <= n; i++ {
+				left = bin(o, left, id(fmt.Sprintf("x%d", i)))
+				right = bin(o, id(fmt.Sprintf("x%d", n-i)), un('p', right))
+			}
+			run("deep-left", left)
+			run("deep-right", right)
+		}
+		for _, k := range []byte{'-', '!', 'p'} {
+			e := id("a")
+			for i := 0; i < n; i++ {
+				e = un(k, e)
+				if k != 'p' && i%2 == 1 {
+					e = un('p', e) // keep `- -` / `NOT NOT` apart from each other's folding rules every other level
+				}
+			}
+			run("deep-prefix", e)
+			run("deep-prefix", bin("+", e, num("1")))
+		}
+	}
+
 	// C: random deeper trees
 	n := w.pickN(30000, 400000)
 	for i := 0; i < n; i++ {
